@@ -48,6 +48,6 @@ for d in sorted(glob.glob(os.path.join(ROOT, "seeded", "*-*"))):
     if not os.path.exists(rp): continue
     r = json.load(open(rp)); mp = os.path.join(d, "meta.json")
     meta = json.load(open(mp)) if os.path.exists(mp) else {}
-    det = ", ".join("%s:%s (%ss)" % (c, v["key"] or ("exit %d" % v["exit"]), v["wall_s"]) for c, v in r["checks"].items() if v["exit"] == 1) or "MISSED"
+    det = ", ".join("%s:%s (%ss)" % (c, v["key"] or ("exit %d" % v["exit"]), v["wall_s"]) for c, v in r["checks"].items() if v["exit"] == 1) or ("exit 2 (inconclusive: harness precondition no longer holds)" if any(v["exit"] == 2 for v in r["checks"].values()) else "MISSED")
     rows.append("| %s | %s | %s | %s |" % (os.path.basename(d), (meta.get("summary") or "")[:140].replace("|", "/"), r["tier"], det))
 open(os.path.join(ROOT, "seeded", "RESULTS.md"), "w").write("# Seeded mutants vs. checks\n\n| mutant | summary | tier | detected by (violation key) |\n|---|---|---|---|\n" + "\n".join(rows) + "\n")
